@@ -20,7 +20,7 @@ ASSUMPTIONS = ['state-based path: same Gauss-Legendre points as the package (num
                'tolerance 1e-11 of summand magnitude (const), 1e-9 of max|kG| (state, quadrature of high-degree polynomials)']
 RTOL = 1e-11
 TRIPLES = [(-1.0, 0.0, 0.0), (0.0, -1.0, 0.0), (0.0, 0.0, 1.0), (0.3, -0.7, 0.45), (2.0, 2.0, -1.0)]
-COORDS = {k: v for k, v in c02.COORDS.items() if k not in ('lam', 'offset', 'preload')}
+COORDS = {k: v for k, v in c02.COORDS.items() if k not in ('lam', 'offset', 'preload', 'ortho')}
 COORDS['triple'] = list(range(len(TRIPLES)))
 
 
